@@ -28,7 +28,7 @@ META = {
 SRC_FILES = ["src/rime/dict/dictionary.cc", "src/rime/dict/table.cc", "src/rime/gear/script_translator.cc",
              "src/rime/gear/table_translator.cc", "src/rime/gear/translator_commons.cc", "src/rime/translation.cc",
              "src/rime/candidate.cc", "src/rime/algo/syllabifier.cc", "src/rime/dict/prism.cc"]
-GEN_VERSION = 2
+GEN_VERSION = 3
 KS = 18.420680743952367
 
 
@@ -43,7 +43,8 @@ def schema_yaml(sid, kind, cfg):
     y += ["translator:", "  dictionary: %s" % cfg["dict"], "  prism: %s" % sid, "  enable_user_dict: false",
           "  enable_completion: %s" % ("true" if cfg["completion"] else "false"),
           "  strict_spelling: %s" % ("true" if cfg.get("strict") else "false"),
-          "  enable_correction: false", "  contextual_suggestions: false", "  enable_sentence: false", "  enable_encoder: false",
+          "  enable_correction: false", "  contextual_suggestions: false",
+          "  enable_sentence: %s" % ("true" if cfg.get("sentence") else "false"), "  enable_encoder: false",
           "  enable_charset_filter: false", "menu:", "  page_size: 5"]
     return "\n".join(y) + "\n"
 
@@ -79,7 +80,24 @@ def inputs_for(rng, cfg, max_len, n_random):
         n = rng.randint(max_len + 1, max_len + 7)
         s = rng.choice(letters) + "".join(rng.choice(chars if rng.random() < 0.25 else letters) for _ in range(n - 1))
         out.append(s)
-    return out
+    # the dictionary's own one-syllable codes strung together, with delimiters between / inside / after them or not
+    syl, rows, need, nent = C06.ref_rows(cfg["case"])
+    words = sorted({c[0].decode("latin-1") for t, c, w in rows if len(c) == 1}) or [s.decode("latin-1") for s in syl[:3]]
+    dl = [c for c in delims]
+    for _ in range(max(10, n_random // 2) if words and dl else 0):
+        k = rng.randint(2, 4)
+        s = ""
+        for i in range(k):
+            w = rng.choice(words)
+            if rng.random() < 0.15 and len(w) > 1:
+                j = rng.randint(1, len(w) - 1)
+                w = w[:j] + rng.choice(dl) + w[j:]          # a delimiter inside a code
+            s += w
+            if i < k - 1 or rng.random() < 0.2:
+                s += rng.choice(["", "", rng.choice(dl), rng.choice(dl), rng.choice(dl) * 2])
+        if s and not (s[0] in delims and s[0] not in letters) and len(s) <= 16:
+            out.append(s)
+    return list(dict.fromkeys(out))
 
 
 def job_text(cfgs, inputs_by_cfg):
@@ -112,7 +130,7 @@ def parse_impl(out):
         elif op == "endschema":
             cur["complete"] = True
         elif op == "in":
-            inp = {"in": p[1], "g": None, "gi": [], "lk": {}, "pv": None, "px": [], "pm": None, "seg": None, "c": [], "done": False}
+            inp = {"in": p[1], "g": None, "gi": [], "lk": {}, "pv": None, "px": [], "cps": [], "pm": None, "seg": None, "c": [], "done": False}
             cur["inputs"].append(inp)
         elif inp is None:
             continue
@@ -128,6 +146,8 @@ def parse_impl(out):
             inp["pv"] = line
         elif op == "px":
             inp["px"].append(line)
+        elif op == "cps":
+            inp["cps"].append(line)
         elif op == "pm":
             inp["pm"] = int(p[1])
         elif op == "seg":
@@ -142,7 +162,8 @@ def parse_impl(out):
 
 
 def model_input(sch, cfg):
-    o = ["table"] + sch["table"] + ["endtable", "cfg %s %d %s" % (sch["kind"], 1 if cfg["completion"] else 0, cfg["delims"].encode().hex() or "-")]
+    o = ["table"] + sch["table"] + ["endtable", "cfg %s %d %s %d" % (sch["kind"], 1 if cfg["completion"] else 0,
+                                                                    cfg["delims"].encode().hex() or "-", 1 if cfg.get("sentence") else 0)]
     for inp in sch["inputs"]:
         if not inp["done"] or inp["g"] is None:
             continue
@@ -155,6 +176,7 @@ def model_input(sch, cfg):
         if inp["pv"]:
             o.append(inp["pv"])
         o += inp["px"]
+        o += inp["cps"]
         o.append("go")
     return "\n".join(o) + "\n"
 
@@ -296,17 +318,18 @@ def gen_config(rng, name, quick=True):
     case = {"name": name + "d", "files": [f]}
     delims = rng.choice(["'", "'", " '", "'"])
     return {"name": name, "case": case, "alphabet": letters, "delims": delims, "completion": rng.random() < 0.6,
-            "strict": rng.random() < 0.2, "algebra": algebra, "style": style}
+            "strict": rng.random() < 0.2, "algebra": algebra, "style": style,
+            "sentence": rng.random() < (0.7 if style == "words" else 0.5)}   # table_translator/enable_sentence
 
 
 def config_to_json(cfg):
-    j = {k: cfg.get(k) for k in ("name", "alphabet", "delims", "completion", "strict", "algebra")}
+    j = {k: cfg.get(k) for k in ("name", "alphabet", "delims", "completion", "strict", "algebra", "sentence")}
     j["case"] = C06.case_to_json(cfg["case"])
     return j
 
 
 def config_from_json(j):
-    cfg = {k: j[k] for k in ("name", "alphabet", "delims", "completion", "strict", "algebra")}
+    cfg = {k: j.get(k) for k in ("name", "alphabet", "delims", "completion", "strict", "algebra", "sentence")}
     cfg["case"] = C06.case_from_json(j["case"])
     return cfg
 
@@ -472,6 +495,16 @@ def monitor_table(cfg, rows, sid, inp, by_weight):
         for t, w in words.get(s, []):
             exact.setdefault(t, []).append(w)
     ext = {t for s in ext_syl for t, w in words.get(s, [])}
+    # sentence making (enable_sentence): only when the plain translation is empty
+    plain_possible = bool(exact) or (cfg["completion"] and bool(ext))
+    has_sentence = bool(inp["c"]) and inp["c"][0][0] == "sentence"
+    if cfg.get("sentence") and not plain_possible:
+        return bad + monitor_table_sentence(cfg, words, inp)
+    if cfg.get("sentence") and not exact and (has_sentence or not inp["c"]):
+        return bad      # completion keys exist but the lazy lookup offered none of their words (first ten keys without words): K only
+    if has_sentence:
+        bad.append(("unsound", "a sentence although the input has %s" % ("entries of its own" if plain_possible else "enable_sentence off")))
+        return bad
     seen, phase, lastw = set(), "table", None
     for ty, st, en, t, cm in inp["c"]:
         if t in seen:
@@ -506,6 +539,93 @@ def monitor_table(cfg, rows, sid, inp, by_weight):
             bad.append(("incomplete", "entry %s with code %r is missing" % (bytes.fromhex(t).decode("utf-8", "replace"), code)))
     if inp["pm"] == 0:
         bad.append(("prism-limit", "ExpandSearch with limit 10 is not a prefix of the unlimited search"))
+    return bad
+
+
+def monitor_table_sentence(cfg, words, inp):
+    """table-style schema with enable_sentence, input without entries of its own.  Reference: the input is cut into words — a code
+    (a key of the prism at that position that has one-syllable entries) followed by all the delimiters after it; a sentence is
+    due iff such words (at least two) cover the input; it must be a concatenation of entries along such a cover; after it come the
+    entries of the words that start the input (sound: only those; complete: at least those that begin a cover), longer first."""
+    bad = []
+    raw = bytes.fromhex(inp["in"])
+    total = len(raw)
+    dl = cfg["delims"].encode()
+    edges = {}                       # start -> {end: set of texts}
+    for line in inp["cps"]:
+        p = line.split(" ")
+        sp, ln = int(p[1]), int(p[2])
+        if ln == 0:
+            continue
+        e = sp + ln
+        while e < total and raw[e:e + 1] and raw[e] in dl:
+            e += 1
+        texts = set()
+        for q in (p[3].split(",") if p[3] != "-" else []):
+            sy, ty = (int(x) for x in q.split(":"))
+            if ty <= 0:
+                texts.update(t for t, w in words.get(sy, []))
+        if texts:
+            edges.setdefault(sp, {}).setdefault(e, set()).update(texts)
+    # positions from which the end is reachable / reachable from 0, never using the one word that spans everything
+    def step(sp):
+        return [(e, ts) for e, ts in edges.get(sp, {}).items() if not (sp == 0 and e == total)]
+    fwd = {0}
+    for sp in range(total):
+        if sp in fwd:
+            fwd.update(e for e, _ in step(sp))
+    back = {total}
+    for sp in range(total - 1, -1, -1):
+        if any(e in back for e, _ in step(sp)):
+            back.add(sp)
+    due = total in fwd
+    cands = inp["c"]
+    if not due:
+        if cands:
+            c0 = cands[0]
+            bad.append(("unsound", "%s %s [%d,%d) although the input cannot be cut into dictionary words (+ delimiters)" %
+                        (c0[0], bytes.fromhex(c0[3]).decode("utf-8", "replace"), c0[1], c0[2])))
+        return bad
+    if not cands or cands[0][0] != "sentence":
+        first = sorted(e for e in edges.get(0, {}) if e in back and e != total)
+        bad.append(("incomplete", "the input is a sequence of dictionary words (first word ends at %s) but %s" %
+                    (first[:3], "the candidate list is empty" if not cands else "no sentence is offered")))
+        return bad
+    s0 = cands[0]
+    target = bytes.fromhex(s0[3])
+    ok, seen_st, todo = False, {(0, 0)}, [(0, 0)]
+    while todo and not ok:
+        pos, off = todo.pop()
+        for e, ts in step(pos):
+            for t in ts:
+                tb = bytes.fromhex(t)
+                if target.startswith(tb, off):
+                    st = (e, off + len(tb))
+                    if st == (total, len(target)):
+                        ok = True
+                    if st not in seen_st:
+                        seen_st.add(st)
+                        todo.append(st)
+    if not ok or (s0[1], s0[2]) != (0, total):
+        bad.append(("sentence", "sentence %s [%d,%d) is not a concatenation of entries whose codes (+ delimiters) make up the input" %
+                    (target.decode("utf-8", "replace"), s0[1], s0[2])))
+    seen, last_end = {s0[3]}, None
+    for ty, st, en, t, cm in cands[1:]:
+        if t in seen and t != s0[3]:
+            bad.append(("duplicate", "text %s listed twice" % t))
+        seen.add(t)
+        if ty != "table" or st != 0 or t not in edges.get(0, {}).get(en, ()):
+            bad.append(("unsound", "%s %s [%d,%d) is no entry whose code (+ delimiters) starts the input" %
+                        (ty, bytes.fromhex(t).decode("utf-8", "replace"), st, en)))
+        if last_end is not None and en > last_end:
+            bad.append(("order", "a shorter word [0,%d) comes before a longer one [0,%d)" % (last_end, en)))
+        last_end = en
+    for e, ts in edges.get(0, {}).items():
+        if e in back and e != total:
+            for t in sorted(ts):
+                if t not in seen:
+                    bad.append(("incomplete", "entry %s, a first word [0,%d) of the sentence's input, is missing" %
+                                (bytes.fromhex(t).decode("utf-8", "replace"), e)))
     return bad
 
 
@@ -586,6 +706,10 @@ def evaluate(run, cfgs, inputs_by_cfg, stats=None, want_model=True):
                 stats["candidates"] += len(inp["c"])
                 stats["lookup_entries"] += sum(len(v) for v in inp["lk"].values())
                 stats["with_sentence"] += 1 if inp["c"] and inp["c"][0][0] == "sentence" else 0
+                if sch["kind"] == "table":
+                    stats["table_sentences"] += 1 if inp["c"] and inp["c"][0][0] == "sentence" else 0
+                    stats["table_sentence_mode_inputs"] += 1 if cfg.get("sentence") else 0
+                    stats["table_inputs_with_inner_delimiter"] += 1 if any(ch in cfg["delims"] for ch in bytes.fromhex(inp["in"]).decode("latin-1").rstrip(cfg["delims"])) else 0
                 stats["with_completion"] += 1 if any(x[0] == "completion" for x in inp["c"]) else 0
                 stats["long_code_hits"] += sum(1 for v in inp["lk"].values() for x in v if x[2].count(",") >= 3)
                 stats["graph_edges"] += len(inp["gi"])
@@ -660,7 +784,7 @@ def run(c):
     n_cfg, max_len, n_rand = (48, 4, 40) if quick else (400, 5, 100)
     stats = {"configurations": 0, "inputs": 0, "candidates": 0, "lookup_entries": 0, "with_sentence": 0, "with_completion": 0,
              "long_code_hits": 0, "graph_edges": 0, "ambiguous": 0, "nontrivial": set(), "algebra": {}, "completion_on": 0,
-             "sort_original": 0, "shrink_evals": 0, "crashes": 0, "exhaustive_length": max_len, "styles": {}}
+             "sort_original": 0, "table_sentences": 0, "table_sentence_mode_inputs": 0, "table_inputs_with_inner_delimiter": 0, "sentence_on": 0, "shrink_evals": 0, "crashes": 0, "exhaustive_length": max_len, "styles": {}}
     items = corpus_items()
     for i in range(n_cfg):
         cfg = gen_config(c.rng, "k%d" % i, quick)
@@ -675,6 +799,7 @@ def run(c):
             a = json.dumps(cfg["algebra"])
             stats["algebra"][a] = stats["algebra"].get(a, 0) + 1
             stats["completion_on"] += 1 if cfg["completion"] else 0
+            stats["sentence_on"] += 1 if cfg.get("sentence") else 0
             stats["styles"][cfg.get("style", "corpus")] = stats["styles"].get(cfg.get("style", "corpus"), 0) + 1
             stats["sort_original"] += 1 if cfg["case"]["files"][0].get("sort") == "original" else 0
         if crash:
